@@ -338,6 +338,8 @@ impl<T: AsRef<[u8]>> Frame<T> {
             }
 
             offset += self.security_header_len();
+            // The message integrity code at the end of the frame must fit as well.
+            offset += self.mic_len();
         }
 
         if offset > self.buffer.as_ref().len() {
@@ -681,15 +683,23 @@ impl<T: AsRef<[u8]>> Frame<T> {
         if len > 0 { Some(ki[len - 1]) } else { None }
     }
 
-    /// Return the Message Integrity Code (MIC).
-    pub fn message_integrity_code(&self) -> Option<&[u8]> {
-        let mic_len = match self.security_level() {
-            0 | 4 => return None,
+    /// Return the length of the Message Integrity Code (MIC).
+    fn mic_len(&self) -> usize {
+        match self.security_level() {
+            0 | 4 => 0,
             1 | 5 => 4,
             2 | 6 => 8,
             3 | 7 => 16,
             _ => panic!(),
-        };
+        }
+    }
+
+    /// Return the Message Integrity Code (MIC).
+    pub fn message_integrity_code(&self) -> Option<&[u8]> {
+        let mic_len = self.mic_len();
+        if mic_len == 0 {
+            return None;
+        }
 
         let data = &self.buffer.as_ref();
         let len = data.len();
